@@ -326,7 +326,10 @@ fn run_case(c: &Case, rep: &mut CaseReport) -> Verdict {
 pub fn problem_verdict(e: Problem, w: &mut World, rep: &mut CaseReport) -> Verdict {
     match e {
         Problem::Db(crate::db::DbError::Timeout) => {
-            rep.inconclusive = Some("watchdog".into());
+            let path = crate::db::work_root().join(format!("watchdog-{}-{}.json", std::process::id(), w.db.log.len()));
+            let _ = std::fs::write(&path, serde_json::to_string_pretty(&json!({"log": w.db.log, "dir": w.case.path})).unwrap_or_default());
+            w.case.keep = true;
+            rep.inconclusive = Some(format!("watchdog (log: {})", path.display()));
             Verdict::Discard("watchdog".into())
         }
         Problem::Db(d) => Verdict::fail("worker-died", json!({"error": d.to_string(), "panics": w.db.panics, "log": w.db.log})),
